@@ -43,8 +43,10 @@ RULE = ("requests generated from VERIF_SEED: method x path shape (0-4 segments, 
         "form ONE history against the one pyro_app object of the process: before each request other code may write "
         "Pyro5.config (SERIALIZER serpent/marshal/msgpack/json, COMMTIMEOUT, config.reset()), nothing is restored in "
         "between; the serializer in force at each invocation is observed.  Second suite: histories of 2-6 requests against "
-        "a real daemon on loopback (real client.Proxy, real wire), same config writes in between, every reply body must "
-        "parse as JSON and equal the call's value.  A case is non-trivial "
+        "a real daemon on loopback (real client.Proxy, real wire), same config writes in between plus COMPRESSION / "
+        "ITER_STREAMING, incompressible payloads around the 100-byte compression threshold, iterator-valued members, two "
+        "objects of same-named classes with different members; every reply must be the call's JSON value (200) or its "
+        "error (500), the remote objects must have seen exactly the one expected call.  A case is non-trivial "
         "when the real gateway produced Pyro traffic (>= 1 logged action); distinct = distinct (config, request, backend)")
 ASSUMPTIONS = ["environ carries REQUEST_METHOD, QUERY_STRING and wsgi.errors (PEP 3333 / wsgiref always set them) and its strings hold no lone surrogates",
                "urllib.parse.parse_qs and uuid.UUID are externals: the model receives their results",
@@ -552,6 +554,11 @@ def apply_perturb(config, p):
     else:
         config.SERIALIZER = p["serializer"]
         config.COMMTIMEOUT = float(p["commtimeout"])     # (replay files carry floats as text)
+    # deployment settings of the Pyro wire (histories against the real daemon only)
+    if "compression" in p:
+        config.COMPRESSION = bool(p["compression"])
+    if "iter_streaming" in p:
+        config.ITER_STREAMING = bool(p["iter_streaming"])
 
 
 def run_real(case, keep_config=False, prime=False, shim=None, world=None, environ_cls=dict):
@@ -1091,12 +1098,31 @@ def _run(ctx, name, n, do_model):
 # ----------------------------------------------------------------------------------------------
 # histories against a REAL daemon on loopback: real client.Proxy, real wire, real serializers
 # ----------------------------------------------------------------------------------------------
-REAL_URI = "@REAL-THING@"
 _HIST = None
+
+# the objects behind the real daemon: name in the name server -> object id, exposed methods, exposed attributes.
+# svcA / svcB are instances of two DIFFERENT classes made by one factory (same __module__ and __qualname__,
+# different members), thing has members whose value is an iterator and a member returning text zlib cannot shrink.
+REAL_OBJECTS = {
+    "http.thing": {"id": "thing", "methods": ["describe", "echo", "fail", "numbers", "token"], "attrs": ["feed", "value"]},
+    "http.svcA": {"id": "svcA", "methods": ["alpha", "ping"], "attrs": ["va"]},
+    "http.svcB": {"id": "svcB", "methods": ["beta", "ping"], "attrs": ["vb"]},
+}
+
+
+def token(n):
+    """deterministic high-entropy text of n characters (base64 of a hash chain): deflate does not make it smaller"""
+    import base64
+    import hashlib
+    out, h = "", b"c20"
+    while len(out) < n:
+        h = hashlib.sha256(h).digest()
+        out += base64.b64encode(h).decode("ascii").rstrip("=")
+    return out[:n]
 
 
 def _hist_env():
-    """a real Pyro daemon (127.0.0.1, own thread) with one exposed object, and a logging subclass of the real Proxy
+    """a real Pyro daemon (127.0.0.1, own thread) with the REAL_OBJECTS, and a logging subclass of the real Proxy
     that changes nothing (every method calls the real one)"""
     global _HIST
     if _HIST is not None:
@@ -1111,24 +1137,66 @@ def _hist_env():
     @server.expose
     class Thing(object):
         def echo(self, **kw):
-            calls.append(("echo", kw))
+            calls.append(("thing", "echo", kw))
             return kw
 
         def describe(self, name):
-            calls.append(("describe", {"name": name}))
+            calls.append(("thing", "describe", {"name": name}))
             return {"name": name, "tags": ["a", "b"], "size": 3}
 
         def fail(self, **kw):
-            calls.append(("fail", kw))
+            calls.append(("thing", "fail", kw))
             raise ValueError("scripted failure")
+
+        def token(self, n):
+            calls.append(("thing", "token", {"n": n}))
+            return token(int(n))
+
+        def numbers(self, n):
+            calls.append(("thing", "numbers", {"n": n}))
+            return (i for i in range(int(n)))
 
         @property
         def value(self):
-            calls.append(("value", None))
+            calls.append(("thing", "value", None))
             return 42
 
+        @property
+        def feed(self):
+            calls.append(("thing", "feed", None))
+            return iter(["a", "b"])
+
+    def make_service(kind):
+        @server.expose
+        class Service(object):
+            def ping(self):
+                calls.append(("svc" + kind, "ping", {}))
+                return "pong-" + kind
+
+            if kind == "A":
+                def alpha(self, **kw):
+                    calls.append(("svcA", "alpha", kw))
+                    return ["alpha", kw]
+
+                @property
+                def va(self):
+                    calls.append(("svcA", "va", None))
+                    return "va"
+            else:
+                def beta(self, **kw):
+                    calls.append(("svcB", "beta", kw))
+                    return ["beta", kw]
+
+                @property
+                def vb(self):
+                    calls.append(("svcB", "vb", None))
+                    return "vb"
+        return Service
+
     daemon = server.Daemon(host="127.0.0.1", port=0)
-    uri = str(daemon.register(Thing(), "thing"))
+    uris = {"http.thing": str(daemon.register(Thing(), "thing")),
+            "http.svcA": str(daemon.register(make_service("A")(), "svcA")),
+            "http.svcB": str(daemon.register(make_service("B")(), "svcB"))}
     th = threading.Thread(target=daemon.requestLoop, daemon=True)
     th.start()
 
@@ -1157,8 +1225,7 @@ def _hist_env():
         def __getattr__(self, name):
             return getattr(client, name)
 
-    _HIST = dict(daemon=daemon, thread=th, uri=uri, calls=calls, shim=Shim(),
-                 meta={"methods": ["describe", "echo", "fail"], "attrs": ["value"], "oneway": []})
+    _HIST = dict(daemon=daemon, thread=th, uris=uris, calls=calls, shim=Shim())
     return _HIST
 
 
@@ -1177,24 +1244,39 @@ def gen_history(rng):
     for _ in range(rng.randint(2, 6)):
         r = rng.random()
         qs_parts = []
-        expect = None
         obj = "http.thing"
-        if r < 0.40:
-            member, expect = "echo", "echo"
+        if r < 0.20:
+            member = "echo"
             for k in rng.sample(["a", "b", "name", "x y"], rng.randint(0, 3)):
                 qs_parts.append((k, rng.choice(VALUES[:2] + VALUES[3:])))
                 if rng.random() < 0.25:
                     qs_parts.append((k, rng.choice(["2", "zz"])))
-        elif r < 0.55:
-            member, expect = "describe", "describe"
+            if rng.random() < 0.3:      # a request payload deflate cannot shrink
+                qs_parts.append(("blob", token(rng.choice([90, 101, 110, 128, 160]))))
+        elif r < 0.28:
+            member = "describe"
             qs_parts.append(("name", rng.choice(["first", "second", "é€"])))
-        elif r < 0.67:
-            member, expect = "value", "value"
-        elif r < 0.77:
-            member, expect = "fail", "fail"
-        elif r < 0.84:
-            member, expect = "$meta", "$meta"
-        elif r < 0.92:
+        elif r < 0.34:
+            member = "value"
+        elif r < 0.40:
+            member = "fail"
+        elif r < 0.45:
+            member = "$meta"
+        elif r < 0.57:                  # results around the 100-byte threshold of wire compression, incompressible
+            member = "token"
+            qs_parts.append(("n", str(rng.choice([20, 97, 98, 99, 100, 101, 105, 110, 120, 128, 140, 400]))))
+        elif r < 0.64:                  # members whose value is an iterator
+            member = "numbers"
+            qs_parts.append(("n", str(rng.randint(0, 4))))
+        elif r < 0.69:
+            member = "feed"
+        elif r < 0.89:                  # two objects of same-named classes: own members, the other's members, $meta
+            obj = rng.choice(["http.svcA", "http.svcB"])
+            member = rng.choice(["ping", "alpha", "beta", "va", "vb", "$meta", "alpha" if obj.endswith("A") else "beta",
+                                 "va" if obj.endswith("A") else "vb"])
+            if member in ("alpha", "beta") and rng.random() < 0.5:
+                qs_parts.append(("k", rng.choice(["1", "two"])))
+        elif r < 0.95:
             member, obj = "echo", rng.choice(["secret.thing", "xhttp.thing"])
         else:
             member = "nosuch"
@@ -1206,16 +1288,61 @@ def gen_history(rng):
             else:
                 qs_parts.insert(rng.randint(0, len(qs_parts)), ("$key", "secret"))
         qs = "&".join("%s=%s" % (urllib.parse.quote(k, safe="$"), urllib.parse.quote(v)) for k, v in qs_parts)
+        pert = gen_perturb(rng, timeouts=(0.0, 3.0, 8.0))
+        if pert is not None and rng.random() < 0.8:
+            pert["compression"] = rng.random() < 0.6
+            pert["iter_streaming"] = rng.random() < 0.7
         steps.append({"key": key, "pattern": r"http\.", "method": rng.choice(["GET", "GET", "POST"]), "path": "/pyro/%s/%s" % (obj, member),
                       "qs": qs, "keyhdr": keyhdr, "options": None, "corr": rng.choice([None, None, "11112222-1111-2222-3333-222244449999"]),
-                      "apptmo": 5.0, "perturb": gen_perturb(rng, timeouts=(0.0, 3.0, 8.0)), "expect": expect if (present or not key) else None})
+                      "apptmo": 5.0, "perturb": pert})
     return steps
+
+
+def _hist_target(st):
+    """(name, member) the step's path names (the history generator only makes /pyro/<name>/<member>)"""
+    rest = st["path"][len("/pyro/"):]
+    name, _, member = rest.rpartition("/")
+    return name, member
 
 
 def _hist_world(step, result):
     H = _hist_env()
-    return {"nsget": ["ok"], "nslist": [], "lookup": {"http.thing": ["u", H["uri"]], "secret.thing": ["u", H["uri"]]},
-            "connect": {}, "bind": {}, "meta": H["meta"], "result": result}
+    name, _ = _hist_target(step)
+    o = REAL_OBJECTS.get(name, REAL_OBJECTS["http.thing"])
+    lookup = {n: ["u", u] for n, u in H["uris"].items()}
+    lookup["secret.thing"] = ["u", H["uris"]["http.thing"]]
+    return {"nsget": ["ok"], "nslist": [], "lookup": lookup, "connect": {}, "bind": {},
+            "meta": {"methods": o["methods"], "attrs": o["attrs"], "oneway": []}, "result": result}
+
+
+def _hist_expect(st, params):
+    """what the call the step asks for gives: ("ret", value) | ("exc", exception class) | None (nothing may be invoked)"""
+    name, member = _hist_target(st)
+    q = urllib.parse.parse_qs(st["qs"])
+    kv = q.get("$key", [])
+    key_ok = (not st["key"]) or st["keyhdr"] == "secret" or (not st["keyhdr"] and kv == ["secret"])
+    o = REAL_OBJECTS.get(name)
+    if not key_ok or o is None or st["method"] not in ("GET", "POST"):
+        return None
+    if member in o["attrs"]:
+        if params:
+            return None
+        return {"value": ("ret", 42), "feed": ("exc", "Pyro5.errors.ProtocolError"), "va": ("ret", "va"), "vb": ("ret", "vb")}[member]
+    if member not in o["methods"]:
+        return None
+    if member == "echo":
+        return ("ret", params)
+    if member == "describe":
+        return ("ret", {"name": params.get("name"), "tags": ["a", "b"], "size": 3})
+    if member == "fail":
+        return ("exc", "builtins.ValueError")
+    if member == "token":
+        return ("ret", token(int(params["n"])))
+    if member == "numbers":
+        return ("exc", "Pyro5.errors.ProtocolError")
+    if member == "ping":
+        return ("ret", "pong-" + name[-1]) if not params else ("exc", "builtins.TypeError")
+    return ("ret", [member, params])        # alpha / beta
 
 
 def run_history(ctx, steps, do_model, lines=None, reals=None, items=None):
@@ -1225,49 +1352,56 @@ def run_history(ctx, steps, do_model, lines=None, reals=None, items=None):
     config = E["config"]
     from Pyro5 import serializers
     jser = serializers.serializers["json"]
-    cfg0 = (config.SERIALIZER, config.COMMTIMEOUT)
+    cfg0 = (config.SERIALIZER, config.COMMTIMEOUT, config.COMPRESSION, config.ITER_STREAMING)
     try:
         for i, st in enumerate(steps):
             ncalls = len(H["calls"])
             rep, events = run_real(st, keep_config=True, shim=H["shim"], world=_hist_world(st, ["none"]))
             new_calls = H["calls"][ncalls:]
             hist = {"history": steps[:i + 1]}
+            name, member = _hist_target(st)
             q = urllib.parse.parse_qs(st["qs"])
             params = {k: (v[0] if len(v) == 1 else v) for k, v in q.items() if not (st["key"] and k == "$key")}
             body = b"".join(rep.get("chunks", [])) if rep["kind"] == "http" else b""
-            desc = "request %d of the history (%s %s?%s, Pyro5.config written before it: %r)" % (i + 1, st["method"], st["path"], st["qs"], st["perturb"])
-            expect = st.get("expect")
-            # ---- the property on the real outcome: the HTTP client receives the call's JSON result
+            desc = "request %d of the history (%s %s?%s; Pyro5.config written before it: %r; COMPRESSION=%s ITER_STREAMING=%s)" % (
+                i + 1, st["method"], st["path"], st["qs"][:80], st["perturb"], config.COMPRESSION, config.ITER_STREAMING)
+            expect = _hist_expect(st, params)
+            try:
+                got = json.loads(body.decode("utf-8"))
+                is_json = True
+            except ValueError:
+                got, is_json = None, False
+            is_err = isinstance(got, dict) and bool(got.get("__exception__"))
+            # ---- the property on the real outcome: the HTTP client receives the call's JSON result (200) or its error (500)
             result = ["none"]
-            if expect in ("echo", "describe", "value", "fail"):
-                value = {"echo": params, "describe": {"name": params.get("name"), "tags": ["a", "b"], "size": 3}, "value": 42}.get(expect)
-                want_call = (expect, None if expect == "value" else params)
-                try:
-                    got = json.loads(body.decode("utf-8"))
-                    is_json = True
-                except ValueError:
-                    got, is_json = None, False
+            if rep["kind"] == "http" and rep["status"] == 200 and is_err:
+                ctx.fail("error-as-200", "%s: the reply is the error %s %r, sent to the HTTP client as 200 OK"
+                         % (desc, got.get("__class__"), got.get("args")), hist)
+            if expect is not None:
+                objid = REAL_OBJECTS[name]["id"]
+                want_call = (objid, member, None if member in REAL_OBJECTS[name]["attrs"] else params)
                 if rep["kind"] != "http":
                     pass        # check_property reports escapes
                 elif not is_json:
                     ctx.fail("reply-not-json", "%s: the HTTP client did not receive JSON but %r" % (desc, body[:80]), hist)
-                elif expect == "fail":
-                    if rep["status"] != 500 or not (isinstance(got, dict) and got.get("__exception__") and got.get("__class__") == "builtins.ValueError"):
-                        ctx.fail("wrong-answer", "%s: the call raised ValueError, the HTTP client received %d %r" % (desc, rep["status"], body[:80]), hist)
-                elif rep["status"] != 200 or got != value:
-                    ctx.fail("wrong-answer", "%s: the call returned %r, the HTTP client received %d %r" % (desc, value, rep["status"], body[:80]), hist)
-                if new_calls != [want_call]:
+                elif expect[0] == "exc":
+                    if rep["status"] != 500 or not (is_err and got.get("__class__") == expect[1]):
+                        ctx.fail("wrong-answer", "%s: the call ends in %s, the HTTP client received %d %r" % (desc, expect[1], rep["status"], body[:120]), hist)
+                elif rep["status"] != 200 or got != expect[1]:
+                    ctx.fail("wrong-answer", "%s: the call returns %r, the HTTP client received %d %r" % (desc, expect[1], rep["status"], body[:160]), hist)
+                if new_calls != [want_call] and not (expect == ("exc", "builtins.TypeError") and not new_calls):
                     ctx.fail("call-not-forwarded" if not new_calls else "wrong-parameters",
-                             "%s: the remote object saw %r, expected exactly %r" % (desc, new_calls, want_call), hist)
-                if expect == "fail":
-                    result = ["exc", body.hex() if (rep["kind"] == "http" and rep["status"] == 500 and is_json) else "00"]
+                             "%s: the remote objects saw %r, expected exactly %r" % (desc, new_calls, want_call), hist)
+                if expect[0] == "exc":
+                    result = ["exc", body.hex() if (rep["kind"] == "http" and rep["status"] == 500 and is_err) else "00"]
                 else:
-                    result = ["ret", bytes(jser.dumps(value)).hex()]
+                    result = ["ret", bytes(jser.dumps(expect[1])).hex()]
             elif new_calls:
-                ctx.fail("traffic-unauthorised", "%s: the remote object was invoked: %r" % (desc, new_calls), hist)
+                ctx.fail("traffic-unauthorised", "%s: remote objects were invoked: %r" % (desc, new_calls), hist)
             world = _hist_world(st, result)
             real = canon(dict(st, world=world), rep, events)
             _account(ctx, st, rep, events, real)
+            ctx.count("real-stack:%s" % ("none" if expect is None else expect[0] if expect[0] == "ret" else expect[1].rsplit(".", 1)[-1]))
             before = len(ctx.failures)
             check_property(ctx, dict(st, world=world), rep, events)
             for f in ctx.failures[before:]:
@@ -1277,7 +1411,7 @@ def run_history(ctx, steps, do_model, lines=None, reals=None, items=None):
                 reals.append(real)
                 items.append(hist)
     finally:
-        config.SERIALIZER, config.COMMTIMEOUT = cfg0
+        config.SERIALIZER, config.COMMTIMEOUT, config.COMPRESSION, config.ITER_STREAMING = cfg0
 
 
 def _run_histories(ctx, name, n, do_model):
